@@ -71,6 +71,9 @@ def build(eng, tier):
         # the new directory did not exist, is not '', lives in the existing directory d, and its name (prefix + random
         # characters) differs from every path computed so far - in particular from the destination
         p.assume(z3.And(z3.Not(ex.get(T).z), T.z != VStr("").z, ex.get(d).z, dirname(T.z) == d.z))
+        # ... and a directory that has just been created is empty
+        qq = z3.Const(fresh_name("inside"), S)
+        p.assume(z3.ForAll([qq], z3.Implies(dirname(qq) == T.z, z3.Not(ex.get(VStr(qq)).z)), patterns=[dirname(qq)]))
         gd = next((f.locals["g_dest"] for f in reversed(p.frames) if "g_dest" in f.locals), None)
         if gd is not None:
             p.assume(T.z != gd.z)
@@ -160,9 +163,13 @@ def build(eng, tier):
                1: LoopSpec(invariant=[], modifies=["ExternalTensor.raw", "ExternalTensor._array"]),
                2: LoopSpec(invariant=[],
                            modifies=["ExternalTensor._valid", "ExternalTensor.raw", "ExternalTensor._array"])},
-        ensures=["fs.g_replaced", "box_get(fs.ver, g_dest) == fs.g_new", "box_has(fs.exists, g_dest)"],
+        ensures=["fs.g_replaced", "box_get(fs.ver, g_dest) == fs.g_new", "box_has(fs.exists, g_dest)",
+                 # no temporary file or directory remains: apart from the destination every path exists iff it existed before
+                 "forall(lambda q=str: implies(q != g_dest, box_has(fs.exists, q) == old(box_has(fs.exists, q))))"],
         raises_default=["box_get(fs.ver, g_dest) == old(box_get(fs.ver, g_dest)) or fs.g_replaced",
-                        "box_has(fs.exists, g_dest) == old(box_has(fs.exists, g_dest)) or fs.g_replaced"],
+                        "box_has(fs.exists, g_dest) == old(box_has(fs.exists, g_dest)) or fs.g_replaced",
+                        # `if producing the new data file fails with an exception ... no temporary file or directory remains`
+                        "forall(lambda q=str: implies(q != g_dest, box_has(fs.exists, q) == old(box_has(fs.exists, q))))"],
         modifies=None, assert_mode="raise"))
 
 
